@@ -49,6 +49,11 @@ ASSUMPTIONS = ['oracle WCS: FITS paper II zenithal projections implemented geome
                'here is the mapping pixel/row -> position -> membership -> blanking',
                'pixels/rows within 1e-7 deg of a HEALPix cell edge are undetermined and not judged (complementarity '
                'of the two negate results and bit-identity of unblanked values are judged on every pixel)',
+               'VOTable catalogue cases run in a helper interpreter (recycled every 25 cases, replaced and the case retried when it dies): with '
+               'astropy 8.0.1 / numpy 2.5.3 Table.read(votable) -> boolean row mask -> write(votable), which is what '
+               'mask_catalog does, intermittently corrupts memory (segfault in the garbage collector, reproduced '
+               'without AegeanTools); deaths are counted (helper_interpreter_deaths_retried); SystemError / MemoryError '
+               'around a subject call is a harness error, not a violation',
                'out of domain: integer images that astropy hands over as integers (no BSCALE/BZERO, or the unsigned '
                'BZERO=2**(n-1) convention) cannot hold NaN - the unchanged mask_file raises ValueError on them; a plain '
                'integer image with only a BLANK card comes back from the unchanged mask_file as BITPIX 16 without '
@@ -364,6 +369,10 @@ def _call(o, f, what, *args, **kw):
         with warnings.catch_warnings():
             warnings.simplefilter('ignore')
             return True, f(*args, **kw)
+    except (SystemError, MemoryError, RecursionError):
+        # the interpreter itself is in trouble (e.g. "unknown opcode" after a memory corruption in a compiled
+        # dependency): nothing can be concluded about the subject -> harness error, never a violation
+        raise
     except Exception:
         tb = traceback.format_exc()[-1500:]
         o.violate('raises', {'call': what, 'traceback': tb}, _mech_raises(what, tb))
@@ -690,7 +699,135 @@ def _complementary(o, b0, b1, valid, tag, offsky=None):
 
 
 # ----------------------------------------------------------------------------- run
+_CHILD = {'proc': None, 'served': 0}
+CHILD_RECYCLE = 25
+
+
+def _child_stop():
+    proc = _CHILD['proc']
+    _CHILD['proc'] = None
+    _CHILD['served'] = 0
+    if proc is not None:
+        try:
+            os.killpg(proc.pid, 9)
+        except (ProcessLookupError, PermissionError):
+            pass
+        try:
+            proc.wait(timeout=10)
+        except Exception:
+            pass
+
+
+def _child_start():
+    import subprocess
+    import sys
+    env = dict(os.environ, AEGMON_C10_CHILD='1')
+    if env.get('AEGMON_SCRATCH'):
+        env['AEGMON_SCRATCH'] = os.path.join(env['AEGMON_SCRATCH'], 'child')
+    _CHILD['proc'] = subprocess.Popen([sys.executable, '-m', 'aegmon.props.c10', '--child'], stdin=subprocess.PIPE,
+                                      stdout=subprocess.PIPE, stderr=subprocess.DEVNULL, env=env, start_new_session=True)
+    _CHILD['served'] = 0
+
+
+def _child_request(case, timeout=600):
+    """one case to the helper interpreter; returns the result dict or a string describing how it died"""
+    import json
+    import select
+    proc = _CHILD['proc']
+    try:
+        proc.stdin.write((json.dumps(case) + '\n').encode())
+        proc.stdin.flush()
+    except (BrokenPipeError, OSError):
+        return 'helper interpreter gone before the request (rc=%s)' % proc.poll()
+    buf = b''
+    import time
+    t_end = time.time() + timeout
+    while True:
+        left = t_end - time.time()
+        if left <= 0:
+            return 'helper interpreter timed out'
+        r, _, _ = select.select([proc.stdout], [], [], min(left, 5.0))
+        if not r:
+            if proc.poll() is not None:
+                return 'helper interpreter died (rc=%s)' % proc.returncode
+            continue
+        chunk = os.read(proc.stdout.fileno(), 1 << 16)
+        if not chunk:
+            return 'helper interpreter died (rc=%s)' % proc.poll()
+        buf += chunk
+        while b'\n' in buf:
+            line, buf = buf.split(b'\n', 1)
+            if line.startswith(b'AEGMON-RESULT '):
+                try:
+                    return json.loads(line[len(b'AEGMON-RESULT '):].decode())
+                except ValueError:
+                    return 'helper interpreter wrote an unreadable result'
+
+
+def _run_in_child(case, attempts=3):
+    """run one case in a helper interpreter (recycled every CHILD_RECYCLE cases).  Used for VOTable catalogues: with
+    astropy 8.0.1 / numpy 2.5.3 the sequence Table.read(votable) -> table[boolean mask] -> write(votable) (exactly what
+    mask_catalog does) intermittently corrupts the interpreter's memory (segmentation fault during garbage
+    collection, 'unknown opcode'; reproduced with astropy alone), which would take the other cases of the batch with
+    it.  A helper that dies or reports a harness error is replaced and the case retried; every death is counted."""
+    deaths = []
+    for k in range(attempts):
+        if _CHILD['proc'] is None or _CHILD['proc'].poll() is not None or _CHILD['served'] >= CHILD_RECYCLE:
+            _child_stop()
+            _child_start()
+        res = _child_request(case)
+        _CHILD['served'] += 1
+        if isinstance(res, dict) and res.get('verdict') != 'error':
+            c = res.setdefault('counters', {})
+            c['cases_run_in_a_helper_interpreter'] = c.get('cases_run_in_a_helper_interpreter', 0) + 1
+            if deaths:
+                c['helper_interpreter_deaths_retried'] = c.get('helper_interpreter_deaths_retried', 0) + len(deaths)
+            return res
+        deaths.append(res if isinstance(res, str) else 'harness error in the helper: ' + str(res.get('error'))[-300:])
+        _child_stop()
+    raise RuntimeError('harness: the case could not be run in a helper interpreter (%d attempts): %s' % (attempts, deaths))
+
+
+def _child_main():
+    import json
+    import sys
+    repo = os.environ.get('AEGMON_REPO', '/repo')
+    sys.path.insert(0, repo)
+    import AegeanTools
+    if not os.path.realpath(AegeanTools.__file__).startswith(os.path.realpath(repo) + os.sep):
+        raise RuntimeError('AegeanTools imported from %s, not from %s' % (AegeanTools.__file__, repo))
+    from aegmon import common
+    import faulthandler
+    faulthandler.enable()
+    out = os.fdopen(os.dup(1), 'w')           # results go to the original stdout; anything the subject prints does not
+    os.dup2(2, 1)
+
+    def _default(x):
+        if isinstance(x, np.generic):
+            return x.item()
+        if isinstance(x, np.ndarray):
+            return x.tolist()
+        if isinstance(x, (set, frozenset, tuple)):
+            return list(x)
+        return str(x)
+    for line in sys.stdin:
+        line = line.strip()
+        if not line:
+            continue
+        case = json.loads(line)
+        if hasattr(common, 'reset_scratch'):
+            common.reset_scratch()
+        try:
+            res = run(case)
+        except Exception:
+            res = {'verdict': 'error', 'error': traceback.format_exc()[-3000:]}
+        out.write('AEGMON-RESULT ' + json.dumps(res, default=_default) + '\n')
+        out.flush()
+
+
 def run(case):
+    if case.get('kind') == 'catalog' and case.get('fmt') == 'vot' and not os.environ.get('AEGMON_C10_CHILD'):
+        return _run_in_child(case)
     sphere.selfcheck()
     healmember.selfcheck()
     if not hasattr(run, '_wcs_checked'):
@@ -1283,3 +1420,7 @@ def _run_catalog(o, case, rng):
                     'undefined': int(undefined.sum()), 'columns': [racol, deccol], 'cli': bool(case.get('cli'))}
     finally:
         shutil.rmtree(d, ignore_errors=True)
+
+
+if __name__ == '__main__':
+    _child_main()
